@@ -196,10 +196,15 @@ let count k = try Hashtbl.find counters k with Not_found -> 0
 let max_records = 40
 let mismatches : (string * (string * string) list) list ref = ref []     (* correspondence disagreements *)
 let failures : (string * (string * string) list) list ref = ref []       (* property check failures on the implementation *)
+let current_case = ref ""
+let extra_case = ref ""
+let with_case fields = fields @ [("case", !current_case)] @ (if !extra_case <> "" then [("case_a", !extra_case)] else [])
 let record_mismatch comp fields =
+  let fields = with_case fields in
   bump ("corr_mismatch." ^ comp);
   if count ("corr_mismatch." ^ comp) <= max_records then mismatches := (comp, fields) :: !mismatches
 let record_failure prop fields =
+  let fields = with_case fields in
   let cls = try List.assoc "class" fields with Not_found -> "" in
   bump ("prop_fail." ^ prop); bump ("prop_fail_class." ^ prop ^ "." ^ cls);
   if count ("prop_fail_class." ^ prop ^ "." ^ cls) <= max_records then failures := (prop, fields) :: !failures
@@ -254,7 +259,7 @@ let params_of (s : string) : string = (* "x<hex>#params|f" *)
   | None -> ""
 
 (* relational groups: (rel, group id) -> role a observation *)
-type qobs = { q : string; df : string; tag : string; o : string array }
+type qobs = { q : string; df : string; tag : string; o : string array; line : string }
 let pending : (string, qobs) Hashtbl.t = Hashtbl.create 1024
 
 let tree_of_parse (p : string) : string option = (* "tree|0" -> tree *)
